@@ -43,6 +43,9 @@ type Scenario struct {
 	Closers    int    `json:"closers"`
 	CloseTwice bool   `json:"closeTwice"`
 	OnClose    int    `json:"onClose"`
+	// OnCloseNested: the first on-close callback registers this many further callbacks while it
+	// runs (registration during shutdown must not disturb the callbacks registered before it)
+	OnCloseNested int `json:"onCloseNested,omitempty"`
 }
 
 type conn interface {
@@ -106,9 +109,18 @@ func Exec(t *testing.T, sc Scenario, r *evid.Run) *evid.Failure {
 			cc, w = c, wire.TCP(slink)
 		}
 		onClose := make([]atomic.Int32, sc.OnClose)
+		nested := make([]atomic.Int32, sc.OnCloseNested)
 		for i := range onClose {
 			i := i
-			cc.AddOnClose(func() { onClose[i].Add(1) })
+			cc.AddOnClose(func() {
+				onClose[i].Add(1)
+				if i == 0 {
+					for k := range nested {
+						k := k
+						cc.AddOnClose(func() { nested[k].Add(1) })
+					}
+				}
+			})
 		}
 		bubble.Wait()
 		_ = w.FromLib()
@@ -387,6 +399,11 @@ func Exec(t *testing.T, sc Scenario, r *evid.Run) *evid.Failure {
 					break
 				}
 			}
+			for k := range nested {
+				if n := nested[k].Load(); n > 1 {
+					fail = evid.Failf("close/on-close-count", sc, "on-close callback registered during shutdown (%d) ran %d times", k, n)
+				}
+			}
 		}
 		if fail == nil && stuck == false && !isReturned() {
 			fail = evid.Failf("block/after-close", sc, "the call is blocked after Close")
@@ -450,15 +467,16 @@ func Exec(t *testing.T, sc Scenario, r *evid.Run) *evid.Failure {
 
 func gen(t *rapid.T) Scenario {
 	sc := Scenario{
-		Transport:  rapid.SampledFrom([]string{"udp", "tcp"}).Draw(t, "transport"),
-		Op:         rapid.SampledFrom([]string{"get", "post-bw", "post-big", "observe", "cancelobs", "cancelobs-cb", "ping", "write-con", "write-non"}).Draw(t, "op"),
-		Interrupt:  rapid.SampledFrom([]string{"cancel", "deadline", "close", "peerclose"}).Draw(t, "interrupt"),
-		Pre:        rapid.IntRange(0, 5).Draw(t, "pre") == 0,
-		Queued:     rapid.SampledFrom([]string{"", "", "", "limiter", "nstart"}).Draw(t, "queued"),
-		Closers:    rapid.IntRange(1, 4).Draw(t, "closers"),
-		CloseTwice: rapid.Bool().Draw(t, "twice"),
-		OnClose:    rapid.IntRange(0, 3).Draw(t, "onclose"),
-		Blocks:     rapid.IntRange(0, 3).Draw(t, "blocks"),
+		Transport:     rapid.SampledFrom([]string{"udp", "tcp"}).Draw(t, "transport"),
+		Op:            rapid.SampledFrom([]string{"get", "post-bw", "post-big", "observe", "cancelobs", "cancelobs-cb", "ping", "write-con", "write-non"}).Draw(t, "op"),
+		Interrupt:     rapid.SampledFrom([]string{"cancel", "deadline", "close", "peerclose"}).Draw(t, "interrupt"),
+		Pre:           rapid.IntRange(0, 5).Draw(t, "pre") == 0,
+		Queued:        rapid.SampledFrom([]string{"", "", "", "limiter", "nstart"}).Draw(t, "queued"),
+		Closers:       rapid.IntRange(1, 4).Draw(t, "closers"),
+		CloseTwice:    rapid.Bool().Draw(t, "twice"),
+		OnClose:       rapid.IntRange(0, 3).Draw(t, "onclose"),
+		OnCloseNested: rapid.SampledFrom([]int{0, 0, 1, 2, 3}).Draw(t, "onclosenested"),
+		Blocks:        rapid.IntRange(0, 3).Draw(t, "blocks"),
 	}
 	peers := []string{"silent", "silent", "ack", "garbage", "blocks"}
 	if sc.Transport == "tcp" {
@@ -493,7 +511,7 @@ func TestCheck(t *testing.T) {
 	engines = append(engines, serverEngines()...)
 	engines = append(engines, realEngine())
 	r.Main(evid.Meta{
-		Rule:        "interrupt: a client connection (datagram / stream) in a synctest bubble runs one blocking operation (GET, block-wise POST, large POST, observe registration, observation cancel (from the application's goroutine and from inside the observe callback), ping, confirmable / non-confirmable one-way write), optionally queued behind the parallel-request limiter or NSTART, against a scripted peer (silent, ACK only, unrelated traffic, first j blocks then silence, stops reading, closes); quiescence establishes that the call is blocked; then the interruption (context cancel, context deadline, local Close from 1-4 goroutines, peer close), before or during the call; after 5 virtual seconds and one housekeeping tick the call must have returned with an error; then Close (twice, concurrently): returns, done signal closed, every on-close callback ran exactly once, other calls on the connection ended, no library goroutine left blocked. servers: tcp and dtls servers on in-memory listeners with clients in flight, Stop from several goroutines, Serve returns. real: GET / observe registration against a handler that never answers, and Server.Discover against a silent peer, over UDP, DTLS-PSK, TCP and TLS loopback sockets with the library's own servers and Dial clients, interrupted by cancel, deadline, Close from 1-4 goroutines or server Stop; 5 real seconds of allowance; a failure counts only if it reproduces three times in a row. Non-trivial = the call was really blocked at the interruption (class block/really-blocked); all scenarios are distinct by construction of the key",
+		Rule:        "interrupt: a client connection (datagram / stream) in a synctest bubble runs one blocking operation (GET, block-wise POST, large POST, observe registration, observation cancel (from the application's goroutine and from inside the observe callback), ping, confirmable / non-confirmable one-way write), optionally queued behind the parallel-request limiter or NSTART, against a scripted peer (silent, ACK only, unrelated traffic, first j blocks then silence, stops reading, closes); quiescence establishes that the call is blocked; then the interruption (context cancel, context deadline, local Close from 1-4 goroutines, peer close), before or during the call; after 5 virtual seconds and one housekeeping tick the call must have returned with an error; then Close (twice, concurrently): returns, done signal closed, every on-close callback ran exactly once (the first one registers 0-3 further callbacks while it runs, which must not disturb the others), other calls on the connection ended, no library goroutine left blocked. servers: tcp and dtls servers on in-memory listeners with clients in flight, Stop from several goroutines, Serve returns. real: GET / observe registration against a handler that never answers, and Server.Discover against a silent peer, over UDP, DTLS-PSK, TCP and TLS loopback sockets with the library's own servers and Dial clients, interrupted by cancel, deadline, Close from 1-4 goroutines or server Stop; 5 real seconds of allowance; a failure counts only if it reproduces three times in a row. Non-trivial = the call was really blocked at the interruption (class block/really-blocked); all scenarios are distinct by construction of the key",
 		Assumptions: []string{"connections built over a caller-owned socket without WithCloseSocket are out of domain", "write stalls are generated with a socket-like bounded buffer, not a zero-buffer pipe"},
 		Floor:       300,
 	}, engines...)
